@@ -502,7 +502,7 @@ impl<'a, D: DependencyProvider> Encoder<'a, D> {
         let cache = self.cache;
         let query_requirements_candidates = async move {
             let candidates =
-                futures::future::try_join_all(requirement.version_sets(cache.provider()).map(
+                super::cache::try_join_all_eager(requirement.version_sets(cache.provider()).map(
                     |version_set| cache.get_or_cache_sorted_candidates_for_version_set(version_set),
                 ))
                 .await?;
